@@ -48,6 +48,11 @@ type request struct {
 	// leftOpen: the implementation applied a guilty tally but kept the request open (reported once);
 	// the request is not judged again
 	leftOpen bool
+	// dup: accepted although another request against the same accused was already open (only possible inside
+	// one block: the duplicate test reads the committed state). The statement is silent about it; the
+	// implementation drops such a request at the next block end without a verdict, which is tolerated - but a
+	// verdict on it is judged like any other (a second verdict against one validator shows as a second cut)
+	dup bool
 }
 
 type freeze struct {
@@ -187,7 +192,15 @@ func (m *model) block(h int64, t time.Time, ops []op, amounts []int64, res []har
 					m.violate(fmt.Sprintf("C19|non-active-opened-allegation|op=allegation|reporter=%s|world=%s", role, cls),
 						fmt.Sprintf("height %d: allegation %s by %s (%s) accepted although the reporter is not an active validator", h, o.req, actorName(o.actor), role))
 				}
-				m.open[o.req] = &request{id: o.req, reporter: ad, accused: accused, votes: map[string]bool{}}
+				nr := &request{id: o.req, reporter: ad, accused: accused, votes: map[string]bool{}}
+				for _, r := range m.open {
+					if r.accused == accused {
+						nr.dup = true
+						m.count("antecedent_duplicate_request_accepted_in_one_block")
+						m.tags["duplicate-request-in-one-block"] = true
+					}
+				}
+				m.open[o.req] = nr
 			} else {
 				dup := false
 				for _, r := range m.open {
@@ -343,6 +356,13 @@ func (m *model) block(h int64, t time.Time, ops []op, amounts []int64, res []har
 				m.violate("C19|vote-record-mismatch|op=vote",
 					fmt.Sprintf("height %d: request %s stores votes %v, accepted votes were %v", h, id, got, r.votes))
 			}
+		}
+		if r.dup && rec == nil {
+			// the duplicate is gone: dropped, or decided together with the original request - a freeze of this block
+			// belongs to the original request, which is judged on its own (a second cut shows there)
+			m.count("duplicate_request_dropped_without_verdict")
+			delete(m.open, id)
+			continue
 		}
 		observed := "none"
 		switch {
